@@ -578,8 +578,85 @@ fn gen_repropagate_case(rng: &mut Rng) -> String {
     format!("{} {}", rules.join("/"), ops.join(" "))
 }
 
+/// family "an action changes only the TYPE of a field" (seeded change C06-7: a write-back that compares the values before and
+/// after the action by their printed form drops such an assignment).  Integer n and Float n.0 print alike (`15`) and are
+/// different values for `==` / `!=`.  A writer rule, true of the inserted fact, assigns the other representation of the number
+/// the field already holds (Integer → Float or Float → Integer; sometimes together with a second assignment that does change
+/// the printed form, or to a field that was absent); one or two reader rules are type-sensitive (`==` / `!=` against either
+/// representation, alone, negated, or next to a numeric comparison that cannot tell them apart), with a salience above or
+/// below the writer's.  After the writer fired, working memory holds the new representation: the readers that are false of it
+/// must not fire, the ones that became true must (re-propagation), and the views show the typed value.  Mostly one live fact
+/// per type (D1: compared with the model in full).
+fn gen_typealike_case(rng: &mut Rng) -> String {
+    let ntypes = if rng.chance(2, 3) { 1 } else { 2 };
+    let ty = rng.below(ntypes);
+    let n = *rng.pick(&[0i64, 1, 2, 3, 15, 18, 25, -4]);
+    let (iv, fv) = (format!("i{}", n), format!("h{}", 2 * n));
+    let (from, to) = if rng.chance(1, 2) { (iv, fv) } else { (fv, iv) };
+    let fld = rng.below(2);
+    let other = 2u64;
+    let mut prios: Vec<i64> = vec![-5, 0, 1, 7, 20];
+    rng.shuffle(&mut prios);
+    let mut rules = Vec::new();
+    // the writer
+    let wnode = match rng.below(6) {
+        0 | 1 => format!("A.{}.{}.eq.{}", ty, fld, from),
+        2 => format!("A.{}.{}.ge.i{}", ty, fld, n),                    // numeric: true of both representations
+        3 => format!("!(A.{}.{}.eq.{})", ty, fld, to),
+        4 => format!("A.{}.{}.ne.s0", ty, fld),
+        _ => format!("&(A.{}.{}.le.i{},A.{}.{}.ne.{})", ty, fld, n, ty, fld, to),
+    };
+    let waction = match rng.below(6) {
+        0 => format!("{}={};{}=i{}", fld, to, other, rng.below(3)),   // plus a change that shows in the printed form
+        1 => format!("{}=i{};{}={}", other, rng.below(3), fld, to),
+        _ => format!("{}={}", fld, to),
+    };
+    rules.push(format!("{}:{}:{}:{}:{}", ty, prios[0], if rng.chance(7, 8) { 1 } else { 0 }, wnode, waction));
+    // the readers
+    for i in 0..rng.range(1, 2) as usize {
+        let v = if rng.chance(1, 2) { &from } else { &to };
+        let rnode = match rng.below(7) {
+            0 | 1 => format!("A.{}.{}.eq.{}", ty, fld, v),
+            2 => format!("A.{}.{}.ne.{}", ty, fld, v),
+            3 => format!("!(A.{}.{}.eq.{})", ty, fld, v),
+            4 => format!("&(A.{}.{}.ge.i{},A.{}.{}.eq.{})", ty, fld, n, ty, fld, v),
+            5 => format!("+(A.{}.{}.gt.i{},A.{}.{}.eq.{})", ty, fld, n, ty, fld, v),
+            _ => format!("&(A.{}.{}.le.h{},!(A.{}.{}.eq.{}))", ty, fld, 2 * n, ty, fld, v),
+        };
+        let raction = match rng.below(8) {
+            0 => "R".to_string(),
+            1 => format!("{}=i{}", other, rng.below(3)),
+            _ => "-".to_string(),
+        };
+        rules.push(format!("{}:{}:{}:{}:{}", ty, prios[1 + i], if rng.chance(7, 8) { 1 } else { 0 }, rnode, raction));
+    }
+    let mut ops = Vec::new();
+    let data = |rng: &mut Rng, v: &str| {
+        let mut d = format!("{}={}", fld, v);
+        if rng.chance(1, 3) { d.push_str(&format!(",{}=i{}", other, rng.below(3))); }
+        d
+    };
+    if ntypes == 2 && rng.chance(1, 2) { ops.push(format!("I{}:{}", 1 - ty, gen_data(rng))); }
+    let h = ops.len() as u64 + 1;
+    ops.push(format!("I{}:{}", ty, data(rng, &from)));
+    if rng.chance(1, 6) { ops.push(format!("I{}:{}", ty, data(rng, &from))); }           // a second fact of the type (D0)
+    ops.push("F".into());
+    for _ in 0..rng.below(3) {
+        match rng.below(5) {
+            0 => { ops.push("Z".into()); }
+            1 => { ops.push(format!("U{}:{}", h, data(rng, &from))); }
+            2 => { ops.push("Z".into()); ops.push(format!("U{}:{}", h, data(rng, &from))); }
+            3 => { ops.push(format!("U{}:{}", h, data(rng, &to))); }
+            _ => {}
+        }
+        ops.push("F".into());
+    }
+    format!("{} {}", rules.join("/"), ops.join(" "))
+}
+
 fn gen(rng: &mut Rng, n: usize, _tier: &str) -> Vec<String> {
     (0..n).map(|i| match i % 50 {
+        9 | 19 | 29 | 39 => gen_typealike_case(rng),
         27 | 47 => gen_repropagate_case(rng),
         7 => gen_stale_case(rng),
         17 | 37 => gen_collide_case(rng),
